@@ -169,10 +169,10 @@ CLAIMED["C01"] = dict(
          "consumes exactly those bytes and returns the same value type and the same key, character by character (prefix from the previous key, suffix from the buffer); "
          "plus the writer-side facts shared with C14 (block invariant, ascending keys, a reflog tombstone is encoded as a tombstone with no value bytes); "
          "(layer 3, partial) RefRecord.encode and RefRecord.decode are specified against the byte layout of the value (update-index varint first, then the hash) and lemmaRefValueRoundTrip gives, "
-         "for every one-hash ref record, acceptance, consumed length, update index, name and hash byte by byte (lemmaRefTwoHashRoundTrip: the same for records with a value and a peeled value; lemmaRefSymbolicRoundTrip: the same for symbolic refs, target character by character; "
+         "for every one-hash ref record, acceptance, consumed length, update index, name and hash byte by byte (lemmaRefTwoHashRoundTrip: the same for records with a value and a peeled value; lemmaRefSymbolicRoundTrip: the same for symbolic refs, target character by character; lemmaRefDeletionRoundTrip: a ref deletion is its update index alone and reads back as a deletion; "
          "lemmaIndexValueRoundTrip: the same for the child position of index records); decodeRestartKey reads exactly the full key stored at a restart and rejects only a malformed entry; "
          "newBlockReader computes the distance to the next block by the format; the deletion predicates are the ones of the statement."),
-   note=(TRUST + " Not decided - the larger part of the statement: the value codecs of log and obj records (rest of layer 3; ref deletion records carry no value bytes), the block writer/reader pair and restart "
+   note=(TRUST + " Not decided - the larger part of the statement: the value codecs of log and obj records (rest of layer 3), the block writer/reader pair and restart "
          "handling on the read side (layer 4), sections, index, padding, footer, zlib log blocks (pinned-tree defect F17 is not reported), and therefore the end-to-end "
          "statement 'reads back exactly the records written'. No bounded stand-in replaces them."),
    design="4/C01 (layers L1, L2, part of L3), 10.8, 10.10", technique="contract-based deductive verification: encoder and decoder against one closed-form spec, round-trip lemmas over the two contracts")
